@@ -7,7 +7,7 @@
 From Coq Require Import ZArith QArith List Bool Lia.
 From EosV Require Import lib.AList gen.T_eos model.World model.Status model.Calc model.Engine model.Ops
      model.Wf proofs.AList_p proofs.Rack_p proofs.Frame_p proofs.Containers_p proofs.Status_p proofs.Owner_p
-     proofs.Cinv_p proofs.Runs_p proofs.RunsC_p.
+     proofs.Cinv_p proofs.Runs_p proofs.RunsC_p proofs.RunsK_p.
 Import ListNotations.
 
 Opaque add_item remove_item load unload.
@@ -104,6 +104,76 @@ Proof.
   - exact L.
 Qed.
 
+(* the setters change no link *)
+Lemma FC_with_msgs (s : st) f g : (forall w, FC w (fst (g w))) -> FC (fst s) (fst (with_msgs s f g)).
+Proof. intros H. unfold with_msgs. specialize (H (fst s)). destruct (g (fst s)) as [w m]. exact H. Qed.
+Lemma FC_lift_fail (s : st) e : FC (fst s) (fst (lift s (fun w => fail w e))).
+Proof. unfold lift. cbn [fst]. apply FC_fail. Qed.
+
+Lemma state_set_op_FC s i new : FC (fst s) (fst (fst (state_set_op s i new))).
+Proof.
+  unfold state_set_op. destruct (get_item (fst s) i) as [it|] eqn:Hi; [|apply FC_lift_fail].
+  destruct (i_state it =? new)%Z; [apply FC_refl|].
+  set (s1 := lift s _).
+  assert (K1 : FC (fst s) (fst s1)) by (unfold s1, lift; cbn [fst]; eapply FC_put; eauto).
+  destruct (item_fit (fst s1) i) as [f|]; cbn [fst]; [|exact K1].
+  eapply FC_trans; [exact K1|]. apply FC_with_msgs.
+  intros w. pose proof (FC_state_update_msgs w i (i_state it) new) as F1.
+  destruct (state_update_msgs w i (i_state it) new) as [w1 m1]. cbn [fst] in F1.
+  destruct (FC_state_fold (i_state it) new (state_desc (length (child_items it false) + S (length (w_items w1))) w1 (child_items it false)) w1 m1) as (F2 & _).
+  eapply FC_trans; eauto.
+Qed.
+Lemma target_set_op_FC s i new : FC (fst s) (fst (fst (target_set_op s i new))).
+Proof.
+  unfold target_set_op. destruct (get_item (fst s) i) as [it|] eqn:Hi; [|apply FC_lift_fail].
+  destruct (onat_eqb (i_target it) new); [apply FC_refl|].
+  destruct (item_fit (fst s) i) as [f|]; cbn [fst].
+  - match goal with |- context[match ?X with Some _ => _ | None => _ end] =>
+      match X with fold_right _ _ _ => destruct X as [pe|] end end; [|apply FC_lift_fail].
+    cbn [fst].
+    set (s1 := match i_target it with Some o => emit_always s f _ | None => s end).
+    assert (E1 : fst s1 = fst s) by (subst s1; destruct (i_target it); reflexivity).
+    set (s2 := lift s1 (fun w => upd_item w i (fun it0 => it_set_target it0 new))).
+    assert (K2 : FC (fst s) (fst s2)).
+    { unfold s2, lift. cbn [fst]. rewrite E1. apply FC_upd. reflexivity. }
+    destruct new; exact K2.
+  - eapply FC_put; eauto.
+Qed.
+Lemma mode_set_op_FC s i e m : FC (fst s) (fst (fst (mode_set_op s i e m))).
+Proof.
+  unfold mode_set_op. destruct (get_item (fst s) i) as [it|] eqn:Hi; [|apply FC_lift_fail].
+  set (s1 := lift s _).
+  assert (K1 : FC (fst s) (fst s1)) by (unfold s1, lift; cbn [fst]; eapply FC_put; eauto).
+  destruct (item_fit (fst s1) i) as [f|]; cbn [fst]; [|exact K1].
+  eapply FC_trans; [exact K1|]. apply FC_with_msgs. intros w. apply FC_effects_update.
+Qed.
+Lemma level_set_op_FC s i l : FC (fst s) (fst (fst (level_set_op s i l))).
+Proof.
+  unfold level_set_op. destruct (get_item (fst s) i) as [it|] eqn:Hi; [|apply FC_lift_fail].
+  destruct (i_level it =? l)%Z; [apply FC_refl|].
+  set (s1 := lift s _).
+  assert (K1 : FC (fst s) (fst s1)) by (unfold s1, lift; cbn [fst]; eapply FC_put; eauto).
+  destruct (item_fit (fst s1) i); exact K1.
+Qed.
+
+(* a new item lists nothing and is listed by nobody *)
+Lemma CP_new_item w a c tid st lvl :
+  J w -> CP w -> get_item w a = None -> CP (put_item w a (new_item c tid st lvl)).
+Proof.
+  intros Js (C1 & C2 & C3) Ha. set (w' := put_item w a (new_item c tid st lvl)).
+  assert (Ho : forall j, j <> a -> get_item w' j = get_item w j) by (intros; now apply get_put_item_other).
+  assert (Ga : get_item w' a = Some (new_item c tid st lvl)) by apply get_put_item_same'.
+  assert (Keep : forall j it, get_item w j = Some it -> get_item w' j = Some it).
+  { intros j it G. rewrite Ho; [exact G|]. intros ->. congruence. }
+  split; [|split].
+  - intros x xit y G Hc. destruct (Nat.eq_dec x a) as [->|N]; [rewrite Ga in G; injection G as <-; discriminate|].
+    rewrite (Ho x N) in G. destruct (C1 x xit y G Hc) as (z & Gz & Ez). exists z. split; [now apply Keep|exact Ez].
+  - intros x xit y G Hc. destruct (Nat.eq_dec x a) as [->|N]; [rewrite Ga in G; injection G as <-; destruct Hc|].
+    rewrite (Ho x N) in G. destruct (C2 x xit y G Hc) as (z & Gz & Ez). exists z. split; [now apply Keep|exact Ez].
+  - intros x xit G. destruct (Nat.eq_dec x a) as [->|N]; [rewrite Ga in G; injection G as <-; constructor|].
+    rewrite (Ho x N) in G. now apply (C3 x xit).
+Qed.
+
 (* ------------------------------------------------------------------ *)
 (* every operation                                                      *)
 
@@ -125,24 +195,27 @@ Definition op_ok3 (w : world) (o : op) : Prop :=
   | _ => True
   end.
 
-Definition KINV (w : world) : Prop := CI w /\ RT [] w /\ KK w /\ FLATs w.
+Definition KINV (w : world) : Prop := CI w /\ RT [] w /\ KK w /\ FLATs w /\ CP w.
 Lemma KINV_INV w : KINV w -> INV w. Proof. intros (C & R & _). now split. Qed.
-Lemma KINV_KJ w : KINV w -> KJ w. Proof. intros (C & R & K & Fl). split; [split; [exact R|apply C]|now split]. Qed.
+Lemma KINV_KJ w : KINV w -> KJ w. Proof. intros (C & R & K & Fl & Cp). split; [split; [exact R|apply C]|split; [exact K|now split]]. Qed.
 
 Theorem md_op_KK w o :
   KINV w -> op_ok2 w o -> op_ok3 w o -> w_err (fst (fst (md_op w o))) = None ->
-  KK (fst (fst (md_op w o))) /\ FLATs (fst (fst (md_op w o))).
+  KK (fst (fst (md_op w o))) /\ FLATs (fst (fst (md_op w o))) /\ CP (fst (fst (md_op w o))).
 Proof.
-  intros I (Hok & Hsrc) H3. pose proof (KINV_KJ w I) as KJw. pose proof KJw as (Rw & Kw & Flw).
-  destruct I as (C & RTw & _ & _).
-  assert (KJ2 : forall w', KJ w' -> KK w' /\ FLATs w') by (intros w' (_ & H); exact H).
-  assert (KS : forall w', KK w' /\ w_srcs w' = w_srcs w -> KK w' /\ FLATs w').
-  { intros w' (H1 & H2). split; [exact H1|]. now apply (FLATs_srcs w w'). }
+  intros I (Hok & Hsrc) H3. pose proof (KINV_KJ w I) as KJw. pose proof KJw as (Rw & Kw & Flw & Cpw).
+  destruct I as (C & RTw & _ & _). pose proof (CI_LD w C) as Ldw.
+  assert (KJ2 : forall w', KJ w' -> KK w' /\ FLATs w' /\ CP w') by (intros w' (_ & H); exact H).
+  assert (KS : forall w', KK w' /\ w_srcs w' = w_srcs w -> FC w w' -> KK w' /\ FLATs w' /\ CP w').
+  { intros w' (H1 & H2) Hf. split; [exact H1|split; [now apply (FLATs_srcs w w')|]].
+    apply (CP_same_l w w'); [now apply FC_same_l|exact Cpw]. }
   destruct o; cbn [md_op op_ok op_ok3] in *; cbn [fst].
-  - (* ODefSource *) intros _. unfold lift. cbn [fst]. destruct H3 as (F3 & N3). split; [now apply KK_def_source|exact F3].
-  - (* ONewItem *) intros _. unfold lift. cbn [fst]. destruct Hok as (Hi & _). split.
+  - (* ODefSource *) intros _. unfold lift. cbn [fst]. destruct H3 as (F3 & N3). split; [now apply KK_def_source|split; [exact F3|]].
+    apply (CP_same_l w); [now apply same_l_items|exact Cpw].
+  - (* ONewItem *) intros _. unfold lift. cbn [fst]. destruct Hok as (Hi & _). split; [|split].
     + apply KK_new_item; [apply C|exact Kw|exact Hi|exact H3].
     + now apply (FLATs_srcs w).
+    + apply CP_new_item; [apply C|exact Cpw|exact Hi].
   - (* ONewFit *)
     destruct Hok as (Hf & Hc & Hlt). intros He.
     set (w1 := put_item (put_fit w f empty_fit) chr (new_item CCharacter TypeId_character_static State_offline 0)).
@@ -153,7 +226,8 @@ Proof.
     assert (K1 : KK w1).
     { apply KK_new_direct; [exact K0|exact Hc|]. unfold direct. cbn. discriminate. }
     apply KJ2. apply (slot_set_op_KJ (w1, []) f SlCharacter (Some chr)); [|..|exact He].
-    + split; [exact R1|split; [exact K1|]]. now apply (FLATs_srcs w).
+    + split; [exact R1|split; [exact K1|split; [now apply (FLATs_srcs w)|]]].
+      apply CP_new_item; [apply (CI_new_fit w f C Hf)|apply (CP_same_l w); [now apply same_l_items|exact Cpw]|exact Hc].
     + intros o Ho. exact (slot_occupant_direct w1 f SlCharacter o C1 Ho).
   - (* ONewSolsys *) intros _. unfold lift. cbn [fst]. apply KJ2. eapply KJ_same_is; [|exact KJw]. repeat split.
   - intros He. apply KJ2. apply (slot_set_op_KJ (w, []) f k v KJw); [|exact He].
@@ -170,10 +244,10 @@ Proof.
   - intros He. apply KJ2. now apply (rack_free_KJ (w, [])).
   - intros He. apply KJ2. now apply (rack_clear_KJ (w, [])).
   - intros He. apply KJ2. now apply (charge_set_op_KJ (w, [])).
-  - intros He. apply KS. apply (state_set_op_KK (w, [])); [apply C|exact Kw|exact He].
-  - intros _. apply KS. now apply (target_set_op_KK (w, [])).
-  - intros He. apply KS. now apply (mode_set_op_KK (w, [])).
-  - intros _. apply KS. now apply (level_set_op_KK (w, [])).
+  - intros He. apply KS; [apply (state_set_op_KK (w, [])); [apply C|exact Kw|exact He]|apply (state_set_op_FC (w, []))].
+  - intros _. apply KS; [now apply (target_set_op_KK (w, []))|apply (target_set_op_FC (w, []))].
+  - intros He. apply KS; [now apply (mode_set_op_KK (w, []))|apply (mode_set_op_FC (w, []))].
+  - intros _. apply KS; [now apply (level_set_op_KK (w, []))|apply (level_set_op_FC (w, []))].
   - intros _. apply KJ2. now apply (fleet_add_op_KJ (w, [])).
   - intros _. apply KJ2. now apply (fleet_remove_op_KJ (w, [])).
   - intros _. apply KJ2. now apply (fleet_clear_op_KJ (w, [])).
@@ -181,18 +255,19 @@ Proof.
   - intros He. apply KJ2. now apply (solsys_remove_op_KJ (w, [])).
   - intros He. apply KJ2. now apply (solsys_clear_op_KJ (w, [])).
   - intros He. apply KJ2. now apply (source_set_op_KJ (w, [])).
-  - intros _. now split.
-  - intros _. now split.
-  - intros _. now split.
-  - intros _. now split.
+  - intros _. split; [exact Kw|split; [exact Flw|exact Cpw]].
+  - intros _. split; [exact Kw|split; [exact Flw|exact Cpw]].
+  - intros _. split; [exact Kw|split; [exact Flw|exact Cpw]].
+  - intros _. split; [exact Kw|split; [exact Flw|exact Cpw]].
 Qed.
 
 Lemma KINV_clear_err w : KINV w -> KINV (clear_err w).
 Proof.
-  intros (C & R & K & Fl). split; [now apply CI_clear_err|split; [|split]].
+  intros (C & R & K & Fl & Cp). split; [now apply CI_clear_err|split; [|split; [|split]]].
   - eapply RT_same_is; [|exact R]. repeat split.
   - eapply KK_same_is; [|exact K]. repeat split.
   - now apply (FLATs_srcs w).
+  - apply (CP_same_l w); [now apply same_l_items|exact Cp].
 Qed.
 
 (* a history is clean when every call respects the caller obligations (those of proofs/Runs_p.v and
@@ -215,7 +290,7 @@ Proof.
     pose proof (md_op_RT _ o (KINV_INV _ I) Hok) as R'.
     pose proof (md_op_KK _ o I Hok H3) as K'.
     destruct (md_op (clear_err (s_w x)) o) as [[w' evs] r]. cbn [fst s_w] in *. intros He.
-    destruct (K' He) as (K1 & K2). split; [exact C'|split; [now apply R'|now split]].
+    destruct (K' He) as (K1 & K2 & K3). split; [exact C'|split; [now apply R'|split; [exact K1|now split]]].
 Qed.
 
 Theorem run_KINV ops : forall x, KINV (s_w x) -> ops_clean3 x ops -> KINV (s_w (run x ops)).
@@ -226,11 +301,12 @@ Qed.
 
 Lemma KINV_empty : KINV empty_world.
 Proof.
-  split; [apply CI_empty|split; [|split]].
+  split; [apply CI_empty|split; [|split; [|split]]].
   - intros j it _ H. discriminate.
   - constructor; intros. all: match goal with H : get_item empty_world _ = Some _ |- _ => discriminate H | _ => idtac end.
     intros j it _ H. discriminate.
   - intros tid s u t H. discriminate.
+  - split; [|split]; intros; match goal with H : get_item empty_world _ = Some _ |- _ => discriminate H end.
 Qed.
 
 (* from the empty system, after any clean history: a charge or an autocharge runs
@@ -369,17 +445,25 @@ Theorem charges_are_leaves pen ops :
     i_charge cit = None /\ i_autos cit = [] /\ (i_loaded cit <> None -> item_fit w c <> None).
 Proof. intros H. apply charges_are_leaves_P. now apply ops_clean3b_ok. Qed.
 
-(* the item containers (a module's charge slot, an item's autocharge dictionary): an item that names one
-   is listed by it, and an unloaded item has no autocharges *)
-Theorem item_containers_list_their_items pen ops :
+(* the item containers (a module's charge slot, an item's autocharge dictionary): an item names one exactly when
+   it is listed by it, no autocharge is listed twice, and an unloaded item has no autocharges *)
+Theorem item_containers_consistent pen ops :
   ops_clean3b (init_sys pen) ops = true ->
   let w := s_w (run (init_sys pen) ops) in
-  (forall c cit m, get_item w c = Some cit ->
-     (i_cont cit = Some (PCharge m) -> exists mit, get_item w m = Some mit /\ i_charge mit = Some c) /\
-     (i_cont cit = Some (PAuto m) -> exists mit, get_item w m = Some mit /\ In c (map snd (i_autos mit)))) /\
+  (forall c m, (exists cit, get_item w c = Some cit /\ i_cont cit = Some (PCharge m)) <->
+               (exists mit, get_item w m = Some mit /\ i_charge mit = Some c)) /\
+  (forall a m, (exists ait, get_item w a = Some ait /\ i_cont ait = Some (PAuto m)) <->
+               (exists mit, get_item w m = Some mit /\ In a (map snd (i_autos mit)))) /\
+  (forall m mit, get_item w m = Some mit -> NoDup (map snd (i_autos mit))) /\
   (forall i it, get_item w i = Some it -> i_loaded it = None -> i_autos it = []).
 Proof.
   intros H w.
-  pose proof (run_KINV ops (init_sys pen) KINV_empty (ops_clean3b_ok ops _ H)) as (_ & _ & K & _).
-  split; [exact (kk_pc _ K)|exact (kk_au _ K)].
+  pose proof (run_KINV ops (init_sys pen) KINV_empty (ops_clean3b_ok ops _ H)) as (_ & _ & K & _ & (C1 & C2 & C3)).
+  split; [|split; [|split; [exact C3|exact (kk_au _ K)]]].
+  - intros c m. split.
+    + intros (cit & G & E). exact (proj1 (kk_pc _ K c cit m G) E).
+    + intros (mit & G & E). exact (C1 m mit c G E).
+  - intros a m. split.
+    + intros (ait & G & E). exact (proj2 (kk_pc _ K a ait m G) E).
+    + intros (mit & G & E). exact (C2 m mit a G E).
 Qed.
